@@ -19,7 +19,7 @@ EXPLANATION = (
     "when it is popped in the finished state, pairs the append with leaving "
     "the visiting set, and pushes dependencies after marking; every ordered "
     "id is wrapped and appended once, the only skip being no-ops; the tree "
-    "built for one statement is decided case by case by symbolic evaluation "
+    "built for one statement is decided case by case by abstract interpretation over terms "
     "of the lowering helpers (guarded or not x 0/1/2 declared loops x "
     "assignment or other statement): one conditional around everything, the "
     "loops in declared order with their own variable and bounds, innermost "
@@ -325,7 +325,7 @@ def ast_den(P, t):
     """Denotation of a term that stands for an AST built from dag_ast's node
     constructors: [(guards, loops, leaf statement term)] in execution order; a
     guard is a condition term or ("not", term); None if the term is no AST."""
-    from ..engine import symeval as se
+    from ..engine import casetable as se
     from .c06 import _slots
     slots = {c: _slots(P, c) for c in ("ForLoop", "IfThenElse", "IfThen", "StatementWrapper")}
 
@@ -364,12 +364,12 @@ def ast_den(P, t):
 
 def lowering_table(run, P, rule):
     """What create_ast_from_phase builds for one statement, case by case
-    (symbolic evaluation of the lowering helpers): guard or none x 0, 1, 2
+    (abstract interpretation of the lowering helpers): guard or none x 0, 1, 2
     declared loops x assignment or other statement."""
-    from ..engine import symeval as se
+    from ..engine import casetable as se
     from .c06 import _slots
     if rule not in run.rule_docs:
-        run.rule(rule, "lowering of one statement, case by case (symbolic evaluation): the "
+        run.rule(rule, "lowering of one statement, case by case (abstract interpretation over terms): the "
                  "guard, if any, is one conditional around everything; inside it the loops in "
                  "declared order, first outermost, each with its own variable and bounds; "
                  "innermost the statement itself with its guard and loops taken off", minimum=8)
